@@ -11,7 +11,7 @@ def run(tier, seed):
     ctx.invariants = ["RefusalIsNoOp", "WellFormed", "IntHoldsInts", "Independence"]
     cfg = "MC_HistPool_c18q" if tier == "quick" else "MC_HistPool_c18t"
     emb = [("dyadic", 0), ("ulp", 1)] if tier == "quick" else [("dyadic", 0), ("ulp", 1), ("decimal", 0)]
-    run_pool(ctx, cfg, REQ, FULL_VIEW, emb, budget=60000 if tier == "quick" else 300000)
+    run_pool(ctx, cfg, REQ, FULL_VIEW, emb, budget=60000 if tier == "quick" else 300000, free_too=True)
     for mod in ("props.c02", "props.c04", "props.c10"):
         try:
             m = __import__(mod, fromlist=["x"])
